@@ -28,6 +28,9 @@ type histModel struct {
 	ref        map[uint64]*want
 	pendingCnt int
 	loaded     string
+	// a flush failed while saves were pending and nothing acknowledged or lost them since: part of the
+	// state key, because the real batch is hidden state that such a flush may have damaged
+	failedFlush bool
 }
 
 func newHistModel(backend string, ids []uint64, nver, prefill int) *histModel {
@@ -40,7 +43,7 @@ func newHistModel(backend string, ids []uint64, nver, prefill int) *histModel {
 	}
 	m.ops = append(m.ops, histOp{kind: "flush"})
 	if backend == "rs" {
-		m.ops = append(m.ops, histOp{kind: "close"}, histOp{kind: "crash"})
+		m.ops = append(m.ops, histOp{kind: "close"}, histOp{kind: "crash"}, histOp{kind: "flushfail"})
 	}
 	return m
 }
@@ -62,6 +65,7 @@ func (m *histModel) Reset() {
 	m.ref = map[uint64]*want{}
 	m.pendingCnt = 0
 	m.loaded = ""
+	m.failedFlush = false
 	for i := 0; i < m.prefill; i++ {
 		m.save(uint64(1000+i), 1)
 	}
@@ -79,6 +83,8 @@ func (m *histModel) OpName(i int) string {
 		return "Flush()"
 	case "close":
 		return "Close()+reopen"
+	case "flushfail":
+		return "Flush()-while-the-LevelDB-write-fails"
 	}
 	return "crash+reopen"
 }
@@ -114,6 +120,7 @@ func (m *histModel) ack() {
 		}
 	}
 	m.pendingCnt = 0
+	m.failedFlush = false
 }
 
 func (m *histModel) Apply(i int) *hist.Violation {
@@ -131,6 +138,18 @@ func (m *histModel) Apply(i int) *hist.Violation {
 		if err = m.w.st.Flush(); err == nil {
 			m.ack()
 		}
+	case "flushfail":
+		// a flush that reports an error acknowledges nothing, but what was saved stays pending:
+		// a later successful Flush/Close acknowledges it (reference unchanged)
+		if ferr := m.w.flushWhileWriteFails(); ferr == nil {
+			m.ack() // it claimed success (e.g. nothing to write): then it counts as a flush
+		} else {
+			for _, e := range m.ref {
+				if e.pendingVer > 0 {
+					m.failedFlush = true
+				}
+			}
+		}
 	case "close":
 		if err = m.w.closeReopen(); err == nil {
 			m.ack()
@@ -141,6 +160,7 @@ func (m *histModel) Apply(i int) *hist.Violation {
 			e.pendingVer = 0
 		}
 		m.pendingCnt = 0
+		m.failedFlush = false
 	}
 	ctx := "after " + m.OpName(i)
 	if err != nil {
@@ -186,7 +206,7 @@ func (m *histModel) Key() string {
 			nreq++
 		}
 	}
-	fmt.Fprintf(&b, "|pend=%d|fill-acked=%d|%s", m.pendingCnt, nreq, m.loaded)
+	fmt.Fprintf(&b, "|pend=%d|fill-acked=%d|ff=%v|%s", m.pendingCnt, nreq, m.failedFlush, m.loaded)
 	return b.String()
 }
 
